@@ -4,5 +4,8 @@ CONSTANTS
   SibNames = {"integer", "s", "nil"}
   KeyNames = {"string", "integer"}
   ArgKinds = {"union", "opt", "arr", "map", "rec", "tup", "fun0", "gen"}
-  TemplateNames = {"id", "elem", "wrap", "mk", "val", "key", "unopt", "call", "pair", "same", "swap", "nest", "optarr"}
-INVARIANTS Closed IdLaw ElemWrap Emit
+  TemplateNames = {"id", "elem", "wrap", "mk", "val", "key", "unopt", "call", "pair", "same", "swap", "nest", "optarr", "optid", "optwrap", "optelem", "optval", "unoptarr", "mkopt"}
+  Depth3From = {"arr", "map", "opt"}
+  Depth3Cons = {"arr", "opt", "map"}
+  SecondArgKinds = {"opt", "union"}
+INVARIANTS Closed IdLaw ElemWrap OptLaw ExpectedWf Emit
